@@ -127,9 +127,9 @@ def run_tlc(
     return st
 
 
-def read_export(path: str) -> list[dict]:
+def read_export(path: str, keep=None) -> list[dict]:
     """Read lines written by CSVWrite("%1$s", <<ToJson(x)>>, file): each line is a JSON string
-    holding JSON."""
+    holding JSON.  keep: a function applied to every record as it is read (to drop what the caller does not need)."""
     res = []
     if not os.path.exists(path):
         return res
@@ -144,7 +144,7 @@ def read_export(path: str) -> list[dict]:
                     v = json.loads(v)
             except json.JSONDecodeError as ex:
                 raise MachineryError(f"malformed export line in {path}: {ln[:200]}") from ex
-            res.append(_unmark(v))
+            res.append(_unmark(v) if keep is None else keep(_unmark(v)))
     return res
 
 
